@@ -6,6 +6,7 @@ One(A, lo, hi) == {<<s>> : s \in Strings(A, lo, hi)}
 Two(A, lo, hi) == {<<s, t>> : s \in Strings(A, lo, hi), t \in Strings(A, lo, hi)}
 ACGT == 0..3
 AT == {0, 3}
+In_K2_5 == One(ACGT, 2, 5)
 In_K2_6 == One(ACGT, 2, 6)
 In_K2_7 == One(ACGT, 2, 7)
 In_K3_6 == One(ACGT, 3, 6)
